@@ -474,6 +474,23 @@ void slu_mt_verif_event(int kind, long pnum, long a, long b, long c, const void 
     }
 }
 
+/* nohook variant (library built without the hook guard, free-running only): model a worker that loses its CPU for a long time.
+   Called from the pthread_mutex_lock wrapper; at most two stalls of 30-90 ms per factorization, taken with probability 1/300 per
+   lock acquisition by a worker thread. */
+static int fm_stalls = 0;
+void sched_maybe_long_stall(void)
+{
+#ifdef HX_NOHOOK
+    if (s_mode != SCHED_FREE || !active || tl_pnum < 0 || s_P_req < 2) return;
+    if (!tl_rng) tl_rng = s_seed * 0x2545F4914F6CDD1Dull + (uint64_t)(tl_pnum + 2) * 0x9E3779B97F4A7C15ull + 1;
+    uint64_t r = sm64(&tl_rng);
+    if (r % 300 != 0) return;
+    if (__atomic_add_fetch(&fm_stalls, 1, __ATOMIC_SEQ_CST) > 2) return;
+    struct timespec ts = { 0, (long)(30 + (r >> 20) % 60) * 1000000L }; nanosleep(&ts, NULL);
+    __atomic_add_fetch(&g_mon.long_stalls, 1, __ATOMIC_RELAXED);
+#endif
+}
+
 /* called from the pthread_mutex_lock wrapper when a library mutex is busy */
 int ctl_mutex_wait_step(void)
 {
@@ -492,7 +509,7 @@ int sched_current_P(void) { return s_P_req > 0 ? s_P_req : 1; }
 void sched_begin_factor(int P)
 {
     s_P = P > MAXP ? MAXP : P; s_P_req = P;
-    mon_reset(); fm_reset();
+    mon_reset(); fm_reset(); fm_stalls = 0;
     nreg = 0; nalive = 0; cur = -1; spin_run = 0; ev_index = 0; idle_rounds = 0; for (int t = 0; t < MAXP; ++t) blocked[t] = 0;
     s_rng = s_seed ^ 0xD1B54A32D192ED03ull;
     for (int t = 0; t < MAXP; ++t) { reg[t] = 0; alive[t] = 0; pthread_cond_init(&cv[t], NULL); }
